@@ -386,8 +386,8 @@ def fit_origin(
     if mask is not None:
         qr0_meas_masked = qr0_meas[mask]
         qc0_meas_masked = qc0_meas[mask]
-        mask1D = mask.reshape(1, np.prod(shape))
-        rc_masked = np.vstack((r1D * mask1D, c1D * mask1D))
+        mask1D = mask.reshape(np.prod(shape))
+        rc_masked = rc[:, mask1D]
 
         popt_r, _ = curve_fit(f, rc_masked, qr0_meas_masked)
         popt_c, _ = curve_fit(f, rc_masked, qc0_meas_masked)
@@ -400,12 +400,16 @@ def fit_origin(
                 f, rc_masked, qc0_meas_masked, popt_c, robust_steps, robust_thresh
             )
     else:
-        popt_r, _ = curve_fit(f, rc, qr0_meas)
-        popt_c, _ = curve_fit(f, rc, qc0_meas)
+        popt_r, _ = curve_fit(f, rc, qr0_meas.ravel())
+        popt_c, _ = curve_fit(f, rc, qc0_meas.ravel())
 
         if robust:
-            popt_r = perform_robust_fitting(f, rc, qr0_meas, popt_r, robust_steps, robust_thresh)
-            popt_c = perform_robust_fitting(f, rc, qc0_meas, popt_c, robust_steps, robust_thresh)
+            popt_r = perform_robust_fitting(
+                f, rc, qr0_meas.ravel(), popt_r, robust_steps, robust_thresh
+            )
+            popt_c = perform_robust_fitting(
+                f, rc, qc0_meas.ravel(), popt_c, robust_steps, robust_thresh
+            )
 
     qr0_fit = f(rc, *popt_r).reshape(shape)
     qc0_fit = f(rc, *popt_c).reshape(shape)
